@@ -5,7 +5,7 @@
 From Coq Require Import ZArith NArith Reals List String Bool.
 From Flocq Require Import Core BinarySingleNaN.
 From SV Require Import Num.Mod360 Num.Mod360Proofs Num.AngleSites Num.AngleSitesProofs
-                       Num.Dec6 Num.Dec6Proofs SM.FrozenOps SM.FrozenOpsProofs.
+                       Num.Dec6 Num.Dec6Proofs Num.Dec6CarveProofs Num.VecText Num.VecTextProofs Num.Mod360Id Num.VecTextFloat SM.FrozenOps SM.FrozenOpsProofs SM.FrozenCopy SM.FrozenCopyProofs.
 Import ListNotations.
 
 (** ------------------------------------------------------------------ (a) range *)
@@ -59,6 +59,41 @@ Theorem c05_frozen_stable_refuted :
     (("FrozenMatrix"%string, 0%nat) :: nil) = (("FrozenMatrix"%string, 1%nat) :: nil).
 Proof. exact frozen_stable_refuted. Qed.
 
+(** Copy independence WITH aliasing.  The state is a heap of objects; [src] is an object, [m] one of copy / __copy__ /
+    __deepcopy__ / __reduce__ (pickle) / freeze / thaw that its class has.  For every census and result table read
+    from the source that pass the three checks: the call writes nothing; its result is a new object or — only for a
+    frozen class — [src] itself; whatever public calls follow, operating on the result never changes the source (1)
+    and operating on the source never changes the result (2). *)
+Theorem c05_copy_independent_alias : forall (V : Type) table carve results,
+  table_ok table carve = true -> copy_results_ok results = true -> no_copy_events table = true ->
+  forall st src c v m nv newobj,
+    nth_error st src = Some (c, v) -> copylike m = true -> has results c m = true ->
+    let k := kind_of results c m in
+    let o := {| meth := m; recv := src; args := [] |} in
+    let st' := FrozenOps.step V table st (o, nv, result_alloc k newobj) in
+    let dst := result_obj k st src in
+    (k = RFresh \/ (k = RSelf /\ frozen_class c = true)) /\
+    nth_error st' src = Some (c, v) /\
+    (k = RFresh -> nth_error st' dst = Some newobj /\ dst <> src) /\
+    (forall h, good_history V table carve h st' -> Forall (fun x => recv (fst (fst x)) = dst \/ recv (fst (fst x)) <> src) h ->
+       nth_error (FrozenOps.run V table h st') src = Some (c, v)) /\
+    (forall h r, good_history V table carve h st' -> nth_error st' dst = Some r ->
+       Forall (fun x => recv (fst (fst x)) = src \/ recv (fst (fst x)) <> dst) h ->
+       nth_error (FrozenOps.run V table h st') dst = Some r).
+Proof. intros V table carve results T R N. exact (copy_independent_alias V table carve results T R N). Qed.
+
+(** necessary: with `Angle.copy` returning the receiver the check of the result table fails and multiplying the
+    "copy" changes the source *)
+Theorem c05_copy_alias_refuted :
+  copy_results_ok bad_results_table = false /\
+  let k := kind_of bad_results_table "Angle" "copy" in
+  let st := [("Angle"%string, 5%nat)] in
+  let st' := FrozenOps.step nat imul_table st ({| meth := "copy"; recv := 0%nat; args := [] |}, fun _ => 0%nat, result_alloc k ("Angle"%string, 5%nat)) in
+  let dst := result_obj k st 0%nat in
+  table_ok imul_table no_carve = true /\ dst = 0%nat /\
+  nth_error (FrozenOps.run nat imul_table [({| meth := "__imul__"; recv := dst; args := [] |}, fun _ => 7%nat, [])] st') 0%nat = Some ("Angle"%string, 7%nat).
+Proof. exact copy_alias_refuted. Qed.
+
 (** ------------------------------------------------------------------ (c) text *)
 
 (** Shape of the text for EVERY dyadic x and every pipeline read from the source that strips zeros at six
@@ -84,6 +119,29 @@ Theorem c05_carved_prints_negative_zero : forall c x, cfg_base_ok c = true -> ca
   format6 c x = [45; 48]%N.
 Proof. exact carved_prints_negative_zero. Qed.
 
+(** The carve-out is EXACT: the text is "-0" if and only if the input is carved out ... *)
+Theorem c05_negative_zero_iff_carved : forall c x, cfg_base_ok c = true -> (format6 c x = [45; 48]%N <-> carved c x = true).
+Proof. exact negative_zero_iff_carved. Qed.
+
+(** ... which means: no '-0' repair, a sign is printed, and |x|·10^6 <= 1/2 (num/den = |x|·10^6 exactly) *)
+Theorem c05_carved_iff : forall c x, carved c x = true <->
+  neg_zero_fix c = false /\ sign_flag c x = true /\ (2 * fst (num_den x) <= snd (num_den x))%N.
+Proof. exact carved_iff. Qed.
+
+(** for the pinned pipeline (x+0.0, no repair): exactly the non-zero negative values with |x| <= 5e-7 *)
+Theorem c05_carved_pinned_iff : forall x, carved cfg_pinned x = true <->
+  dneg x = true /\ dm x <> 0%N /\ (2 * fst (num_den x) <= snd (num_den x))%N.
+Proof. exact carved_pinned_iff. Qed.
+
+(** an exact zero of either sign prints as "0" when the pipeline formats x+0.0 or repairs '-0' (obligation
+    format_float_exact_zero_has_no_sign); without either, -0.0 prints as "-0" *)
+Theorem c05_exact_zero_prints_zero : forall c x, cfg_base_ok c = true -> zero_sign_ok c = true -> dm x = 0%N -> format6 c x = [48]%N.
+Proof. exact exact_zero_prints_zero. Qed.
+
+Theorem c05_exact_zero_refuted :
+  format6 {| adds_zero := false; places := 6; strips := true; neg_zero_fix := false |} {| dneg := true; dm := 0; de := 0%Z |} = [45; 48]%N.
+Proof. exact exact_zero_refuted. Qed.
+
 Theorem c05_format6_value : forall c x, scaled_value (fmt_parts c x) = scaled6 x.
 Proof. exact format6_value. Qed.
 
@@ -100,3 +158,78 @@ Theorem c05_format6_shape_refuted :
   format6 cfg_pinned {| dneg := true; dm := 1; de := (-30)%Z |} = [45; 48]%N /\
   shape_ok (fmt_parts cfg_pinned {| dneg := true; dm := 1; de := (-30)%Z |}) = false.
 Proof. exact format6_shape_refuted. Qed.
+
+(** ------------------------------------------------------------------ (c) text: reading back *)
+
+(** every number written by format_float (any pipeline, any dyadic, the carved-out "-0" included) is decoded by the
+    plain-decimal reader to an exact decimal within 5e-7 of the number *)
+Theorem c05_parse_format6 : forall c x, exists d, parse_decimal (format6 c x) = Some d /\ within_5e7 d x.
+Proof. exact parse_format6. Qed.
+
+(** parse_vec_str (as read from the source, [pcfg_ok]) applied to three formatted numbers separated by non-empty
+    whitespace, optionally wrapped in one opening and/or one closing bracket of the source's sets, with arbitrary
+    whitespace outside and inside the brackets: three fields, each decoded within 5e-7 of its component *)
+Theorem c05_parse_format_vec : forall pc c x y z ws1 ob wa s1 s2 wb cb ws2,
+  pcfg_ok pc = true ->
+  all_space ws1 -> all_space wa -> all_space wb -> all_space ws2 ->
+  all_space s1 -> s1 <> [] -> all_space s2 -> s2 <> [] ->
+  opt_bracket (opens pc) ob -> opt_bracket (closes pc) cb ->
+  exists dx dy dz,
+    parse_vec pc (ws1 ++ ob ++ wa ++ format6 c x ++ s1 ++ format6 c y ++ s2 ++ format6 c z ++ wb ++ cb ++ ws2)
+      = PFields (Some dx) (Some dy) (Some dz) /\
+    within_5e7 dx x /\ within_5e7 dy y /\ within_5e7 dz z.
+Proof. exact parse_format_vec. Qed.
+
+(** str(vec) / str(angle) itself *)
+Theorem c05_parse_str_vec : forall pc c x y z, pcfg_ok pc = true ->
+  exists dx dy dz, parse_vec pc (vec_text c x y z) = PFields (Some dx) (Some dy) (Some dz) /\
+    within_5e7 dx x /\ within_5e7 dy y /\ within_5e7 dz z.
+Proof. exact parse_str_vec. Qed.
+
+(** the documented forms "(x y z)", "{x y z}", "[x y z]", "<x y z>" (mixed pairs too) *)
+Theorem c05_parse_bracketed_vec : forall pc c x y z o cl, pcfg_ok pc = true -> accepts_documented_brackets pc = true ->
+  In o [40; 123; 91; 60]%N -> In cl [41; 125; 93; 62]%N ->
+  exists dx dy dz, parse_vec pc ([o] ++ vec_text c x y z ++ [cl]) = PFields (Some dx) (Some dy) (Some dz) /\
+    within_5e7 dx x /\ within_5e7 dy y /\ within_5e7 dz z.
+Proof. exact parse_bracketed_vec. Qed.
+
+(** without strip() the bracket after a leading space is not removed and the first field is lost *)
+Theorem c05_parse_nostrip_refuted :
+  parse_vec {| strips_ws := false; opens := [40]%N; closes := [41]%N; splits_ws := true; uses_float := true |} [32; 40; 49; 32; 50; 32; 51; 41]%N
+  = PFields None (Some (false, 2%N, O)) (Some (false, 3%N, O)).
+Proof. exact parse_nostrip_refuted. Qed.
+
+(** ------------------------------------------------------------------ (a)+(c) normalisation of a value already in range *)
+
+(** Python's [x % 360.0 % 360.0] leaves every finite x with 0 <= x < 360 unchanged (as a real number): the
+    constructor normalisation in Angle.from_str / Angle(...) / FrozenAngle(...) does not move a component that was
+    read back from text, and storing twice equals storing once. *)
+Theorem c05_double360_id : forall x : b64, is_finite x = true -> (0 <= B2R x < 360)%R ->
+  B2R (double360 x) = B2R x /\ is_finite (double360 x) = true.
+Proof. exact double360_id. Qed.
+
+Theorem c05_double360_idempotent : forall x : b64, is_finite x = true ->
+  B2R (double360 (double360 x)) = B2R (double360 x).
+Proof. exact double360_idempotent. Qed.
+
+(** exactly 360.0 — what a component such as 359.9999997 prints as ("360") and re-reads to — is stored as 0.0:
+    the 5e-7 of the property is measured on the circle for angles *)
+Theorem c05_double360_of_360 : show (double360 f360) = (0, 0, 0)%Z.
+Proof. exact double360_of_360. Qed.
+
+(** ------------------------------------------------------------------ (c) float(): the binary rounding of the field *)
+
+(** [within_5e7] is the statement |decimal − x| <= 5e-7 over the reals *)
+Theorem c05_within_5e7_R : forall d x, within_5e7 d x -> (Rabs (dec_R d - dy_R x) <= 5 / 10000000)%R.
+Proof. exact within_5e7_R. Qed.
+
+(** float() modelled as correctly rounded ([py_float] = round-to-nearest-even to binary64 of the exact decimal):
+    the double read back is within 5e-7 + half an ulp of x *)
+Theorem c05_float_parse_error : forall d x, within_5e7 d x ->
+  (Rabs (py_float d - dy_R x) <= 5 / 10000000 + / 2 * ulp radix2 (FLT_exp (-1074) 53) (dec_R d))%R.
+Proof. exact float_parse_error. Qed.
+
+(** and exact when the text denotes x itself *)
+Theorem c05_float_parse_exact : forall d x, dec_R d = dy_R x ->
+  generic_format radix2 (FLT_exp (-1074) 53) (dy_R x) -> py_float d = dy_R x.
+Proof. exact float_parse_exact. Qed.
